@@ -30,6 +30,7 @@ CFG = {
         "Swat4.C11.C11_step",
         "Swat4.C11.C11_main",
         "Swat4.C11.C11_from",
+        "Swat4.C11.driver_write_refines",
     ],
     "shards": (1, 16),
     "nontrivial": _c11_nontrivial,
@@ -50,7 +51,7 @@ CFG = {
     ],
     "trusted_base": COMMON_TRUSTED + [
         "harness/internal/world, harness/internal/storeops (call specs, resolver behaviours) and the renderers in Drv/Store.lean / Drv/StoreRun.lean",
-        "the theorems' history runner (Lemmas/StoreRefine.lean: stepM / runHistM, writer run for 16 commands) is a re-statement of the driver's runCall (Drv/StoreRun.lean, fuel 200, string-rendered results); their agreement is not proved, both are compared with the code",
+        "the theorems' history runner (Lemmas/StoreRefine.lean: stepM / runHistM) re-states the driver's runCall (Drv/StoreRun.lean); for writes their agreement is proved (driver_write_refines), reads call the same model functions; not proved: that the driver's sorting of Filter results by address is permutation-invariant, and the string renderers",
     ],
     "manifest": {
         "text": "Lean theorems relating the Redis-level model of repositories/servers (Model/Store.lean + the lock/WATCH writer machine) "
@@ -63,7 +64,7 @@ CFG = {
                 "without duplicates and up to order, exactly the records satisfying FilterSet.pred (all with-bits, no no-bit, refresh and "
                 "update time in half-open ranges, never-refreshed records fail every active bound); get_refines, count_refines, "
                 "countByStatus_refines; C11_main - by induction over any history of calls from the empty keyspace the model's results equal "
-                "the specification's item by item. The model is tied to the Go code by comparing every return value and the final keyspace "
+                "the specification's item by item; driver_write_refines - the driver's own call runner (Drv.runCall) has this property for writes. The model is tied to the Go code by comparing every return value and the final keyspace "
                 "of generated histories; the specification's results are also compared with the code's directly.",
         "level_note": "Proved: model refines specification, all states / records / filter sets / histories (sequential). Compared only "
                       "(finite): model = code and specification = code on generated histories. Trusted: Lean kernel; axioms propext, "
